@@ -267,18 +267,28 @@ Section Hook.
     | Some ev => m <- msg_of_event ev ;; execute_msg m s
     end.
 
-  (** [PostTxProcessing] of one adapter *)
-  Fixpoint post_tx (h : hkind) (logs : list log) (s : S) : outcome S :=
+  (** [PostTxProcessing] of one adapter.  The Go function mutates the context it is given and
+      returns an error (or panics) — the result is the pair (how it ended, state reached): the
+      effects of the handlers that already ran are still in the context when a later one fails;
+      discarding them is the CALLER's job ([deliver] below; ethermint's temporary context).
+      The state reported for a failing handler is the one before that handler (what a failing
+      SDK handler leaves behind is not modelled; every caller in scope discards it). *)
+  Fixpoint post_tx (h : hkind) (logs : list log) (s : S) : outcome unit * S :=
     match logs with
-    | [] => Ok s
+    | [] => (Ok tt, s)
     | l :: rest =>
         if bytes_eqb (l_addr l) (sys_addr h) then
           match l_topics l with
-          | [] => Panic                                  (* log.Topics[0] *)
+          | [] => (Panic, s)                             (* log.Topics[0] *)
           | t0 :: _ =>
               match handler_of h t0 with
               | None => post_tx h rest s                 (* "continue" *)
-              | Some k => s' <- handle k l s ;; post_tx h rest s'
+              | Some k =>
+                  match handle k l s with
+                  | Ok s' => post_tx h rest s'
+                  | Err => (Err, s)
+                  | Panic => (Panic, s)
+                  end
               end
           end
         else post_tx h rest s
@@ -286,13 +296,28 @@ Section Hook.
 
   (** ethermint [MultiEvmHooks] over (stakingHook, govHook, ...): the remaining hooks of app.go
       (aggregate, xibc packet) look at other contracts' logs and are outside this model. *)
-  Definition multi_hook (logs : list log) (s : S) : outcome S :=
-    s1 <- post_tx HStaking logs s ;; post_tx HGov logs s1.
+  Definition multi_hook (logs : list log) (s : S) : outcome unit * S :=
+    match post_tx HStaking logs s with
+    | (Ok _, s1) => post_tx HGov logs s1
+    | r => r
+    end.
+
+  (** ethermint [ApplyTransaction] for a USER transaction whose EVM execution succeeded with
+      receipt logs [logs] (modelled; validated by the correspondence, not proved about ethermint):
+      EVM state changes and hooks run in a temporary context which is committed only when the
+      hooks return nil; a panic is recovered by BaseApp.runTx, which discards everything.
+      [evm] = the EVM's own state changes (already applied to the temporary context). *)
+  Definition deliver (evm : S -> S) (logs : list log) (s : S) : outcome unit * S :=
+    match multi_hook logs (evm s) with
+    | (Ok _, s') => (Ok tt, s')
+    | (r, _) => (r, s)
+    end.
 End Hook.
 Arguments execute_msg {S}.
 Arguments handle {S}.
 Arguments post_tx {S}.
 Arguments multi_hook {S}.
+Arguments deliver {S}.
 
 (** ** Solidity side (modelled from [syscontracts/contracts_src/*.sol]; validated by the
     correspondence on real EVM runs, not proved): ABI encoding of the emitted events. *)
